@@ -65,10 +65,15 @@ pub fn err() -> io::Error {
 }
 
 fn id_of(path: &Path) -> usize {
-    match path.file_name().and_then(|s| s.to_str()) {
-        Some("data") => DATA,
-        Some("regions") => REGIONS,
-        _ => OTHER,
+    // last bytes of the path (no UTF-8 validation, no component iteration)
+    let b = path.as_os_str().as_encoded_bytes();
+    let n = b.len();
+    if n >= 4 && b[n - 4] == b'd' && b[n - 3] == b'a' && b[n - 2] == b't' && b[n - 1] == b'a' {
+        DATA
+    } else if n >= 7 && b[n - 7] == b'r' && b[n - 1] == b's' {
+        REGIONS
+    } else {
+        OTHER
     }
 }
 
